@@ -18,11 +18,16 @@ def opOK (o : Out) : Op → Prop
   | .reg _ p _ => p ∉ o.allp
   | .use => o.conn = false
   | .stop => o.conn = true
+  -- an application push producer's `resumeProducing()` (and the transport's own code) does not raise;
+  -- a *pull* producer's may (its subchannel was closed locally): that is `_pull`'s error path
+  | .failWrite => False
   | _ => True
 
 def stepOK (c : Cfg) : Prop :=
   match c.stack with
   | .ops (op :: _) :: _ => opOK c.o op
+  | .pull _ (.failWrite :: _) :: _ => True
+  | .pull _ (op :: _) :: _ => opOK c.o op
   | _ => True
 
 /-- every configuration (quiescent or in the middle of any nest of turns) that the code can be in -/
@@ -490,10 +495,27 @@ theorem opPull_inv (c : Cfg) (p : Nat) (h : Inv c) : Inv (opPull c p) := by
   unfold opPull
   split
   · split
-    · exact h.frame rfl rfl rfl rfl rfl h.o.connUnsent (fun hx => List.mem_cons_of_mem _ hx)
-        (Or.inr ⟨_, rfl, (by intro x hx; cases hx), fun m => rfl⟩)
-    · exact h.frame rfl rfl rfl rfl rfl h.o.connUnsent (fun hx => List.mem_cons_of_mem _ hx)
-        (Or.inr ⟨_, rfl, (by intro x hx; cases hx), fun m => rfl⟩)
+    · exact h
+    · split
+      · exact h.frame rfl rfl rfl rfl rfl h.o.connUnsent (fun hx => List.mem_cons_of_mem _ hx)
+          (Or.inr ⟨_, rfl, (by intro x hx; cases hx), fun m => rfl⟩)
+      · exact h.frame rfl rfl rfl rfl rfl h.o.connUnsent (fun hx => List.mem_cons_of_mem _ hx)
+          (Or.inr ⟨_, rfl, (by intro x hx; cases hx), fun m => rfl⟩)
+  · exact h
+
+theorem quiet_inv (c : Cfg) (h : Inv c) : Inv (quiet c) := by
+  unfold quiet
+  split
+  · rename_i e l hl
+    refine ⟨h.o, h.wake, ?_, ?_⟩
+    · intro x hx; exact h.noerr x (by rw [hl]; exact List.mem_cons_of_mem _ hx)
+    · obtain ⟨m, hm1, hm2⟩ := h.mon
+      refine ⟨m, ?_, hm2⟩
+      rw [hl] at hm1
+      simp only [mon] at hm1
+      cases hml : mon l with
+      | none => rw [hml] at hm1; cases hm1
+      | some m' => rw [hml] at hm1; simpa [monStep] using hm1
   · exact h
 
 theorem exec_inv (c : Cfg) (op : Op) (h : Inv c) (hok : opOK c.o op) : Inv (exec c op) := by
@@ -508,6 +530,7 @@ theorem exec_inv (c : Cfg) (op : Op) (h : Inv c) (hok : opOK c.o op) : Inv (exec
   | use => exact opUse_inv c h hok
   | stop => exact opStop_inv c h hok
   | pull p => exact opPull_inv c p h
+  | failWrite => exact absurd hok (by simp [opOK])
 
 /-- "the only unpaused Producers are at the end of the list": while somebody is still paused,
     the head of the rotation is paused -/
@@ -617,7 +640,9 @@ theorem step_inv (c : Cfg) (h : Inv c) (hok : stepOK c) : Inv (step c) := by
     rcases List.mem_cons.1 hx with hx | hx
     · cases hx
     · exact hx
-  · rename_i op r k hk
+  · rename_i r k hk
+    unfold stepOK at hok; rw [hk] at hok; exact absurd hok (by simp [opOK])
+  · rename_i op r k hne hk
     apply exec_inv
     · refine h.frame rfl rfl rfl rfl rfl h.o.connUnsent ?_ (Or.inl rfl)
       intro hx; rw [hk] at hx
@@ -625,6 +650,31 @@ theorem step_inv (c : Cfg) (h : Inv c) (hok : stepOK c) : Inv (step c) := by
       · cases hx
       · exact List.mem_cons_of_mem _ hx
     · unfold stepOK at hok; rw [hk] at hok; exact hok
+  · rename_i sc k hk
+    refine h.frame rfl rfl rfl rfl rfl h.o.connUnsent ?_ (Or.inl rfl)
+    intro hx; rw [hk] at hx
+    rcases List.mem_cons.1 hx with hx | hx
+    · cases hx
+    · exact hx
+  · -- `_pull`'s error path: the adapter is unregistered
+    rename_i sc r k hk
+    unfold pullFailed
+    apply quiet_inv
+    apply opUnreg_inv
+    refine h.frame rfl rfl rfl rfl rfl h.o.connUnsent ?_ (Or.inl rfl)
+    intro hx; rw [hk] at hx
+    rcases List.mem_cons.1 hx with hx | hx
+    · cases hx
+    · exact hx
+  · rename_i sc op r k hne hk
+    apply exec_inv
+    · refine h.frame rfl rfl rfl rfl rfl h.o.connUnsent ?_ (Or.inl rfl)
+      intro hx; rw [hk] at hx
+      rcases List.mem_cons.1 hx with hx | hx
+      · cases hx
+      · exact List.mem_cons_of_mem _ hx
+    · unfold stepOK at hok; rw [hk] at hok
+      cases op <;> first | exact hok | exact absurd rfl hne
 
 theorem init_inv : Inv {} := by
   refine ⟨⟨by simp, by simp, by simp, by simp, by simp, by simp, by simp, by simp, by simp⟩, ?_, ?_, ?_⟩
@@ -1200,8 +1250,14 @@ theorem exec_allp (c : Cfg) (op : Op) : AllpChange c.o.allp (exec c op).o.allp :
   | pull p =>
     simp only [exec, opPull]
     split
-    · split <;> exact .same rfl
+    · split
+      · exact .same rfl
+      · split <;> exact .same rfl
     · exact .same rfl
+  | failWrite => exact .same rfl
+
+theorem quiet_o (c : Cfg) : (quiet c).o = c.o := by
+  unfold quiet; split <;> rfl
 
 theorem giveTurn_o (c : Cfg) (p : Nat) : (giveTurn c p).o = c.o ∧ (giveTurn c p).log = c.log := by
   unfold giveTurn; split
@@ -1229,8 +1285,15 @@ theorem step_allp (c : Cfg) : AllpChange c.o.allp (step c).o.allp := by
               · exact .rotate p rest ha rfl
               · exact .rotate p rest ha (by rw [(giveTurn_o _ p).1])
   · exact .same rfl
-  · rename_i op r k hk
+  · exact .same rfl
+  · rename_i op r k _ hk
     exact exec_allp { c with stack := .ops r :: k } op
+  · exact .same rfl
+  · rename_i sc r k hk
+    unfold pullFailed; rw [quiet_o]
+    exact opUnreg_allp { c with stack := k } sc
+  · rename_i sc op r k _ hk
+    exact exec_allp { c with stack := .pull sc r :: k } op
 
 theorem idxOf_erase_le {q p : Nat} {a : List Nat} (hq : q ∈ a) (hne : q ≠ p) :
     (a.erase p).idxOf q ≤ a.idxOf q := by
@@ -1400,8 +1463,18 @@ theorem exec_nnr (c : Cfg) (op : Op) : NoNewResume c (exec c op) := by
     intro q hq
     simp only [exec, opPull] at hq
     split at hq
-    · split at hq <;> simpa using hq
+    · split at hq
+      · exact hq
+      · split at hq <;> simpa using hq
     · exact hq
+  | failWrite => intro q hq; simpa [exec, Cfg.raiseOp, Cfg.emit] using hq
+
+theorem quiet_nnr (c : Cfg) : NoNewResume c (quiet c) := by
+  intro q hq
+  unfold quiet at hq
+  split at hq
+  · rename_i e l hl; rw [hl]; exact List.mem_cons_of_mem _ hq
+  · exact hq
 
 theorem step_resume (c : Cfg) (p : Nat) (h : Ev.resume p ∈ (step c).log) :
     Ev.resume p ∈ c.log ∨ (c.o.paused = false ∧ ∃ k, c.stack = .loop :: k) := by
@@ -1413,7 +1486,42 @@ theorem step_resume (c : Cfg) (p : Nat) (h : Ev.resume p ∈ (step c).log) :
     · left; simpa [loopStep, hp] using h
     · right; exact ⟨by simpa using hp, k, hk⟩
   · exact Or.inl h
-  · rename_i op r k hk
+  · left; simpa using h
+  · rename_i op r k _ hk
     exact Or.inl (exec_nnr { c with stack := .ops r :: k } op p h)
+  · exact Or.inl h
+  · rename_i sc r k hk
+    left
+    exact opUnreg_nnr { c with stack := k } sc p (quiet_nnr _ p h)
+  · rename_i sc op r k _ hk
+    exact Or.inl (exec_nnr { c with stack := .pull sc r :: k } op p h)
+
+/-! ## `PullToPush._pull`: the error path -/
+
+theorem opUnreg_ok (c : Cfg) (sc p : Nat) (h : Inv c) (hl : c.o.scp.lookup sc = some p) :
+    opUnreg c sc = unregDrop (unregPop c sc p) p := by
+  have hm := lookup_mem hl
+  have hpall : p ∈ c.o.allp := (h.o.scpVals p).2 (List.mem_map.2 ⟨(sc, p), hm, rfl⟩)
+  have hall : (unregPop c sc p).o.allp = c.o.allp := by unfold unregPop; split <;> rfl
+  have hO : InvO (unregDrop (unregPop c sc p) p).o := by
+    have hi := opUnreg_inv c sc h
+    unfold opUnreg at hi
+    simp only [hl, hall, hpall, not_true_eq_false, if_false] at hi
+    split at hi
+    · -- the branch that raises cannot be taken: it would log an internal error
+      rename_i hck
+      exfalso
+      exact hi.noerr .assertion (by simp [Cfg.raiseOp, Cfg.emit]) (by simp [isInternal])
+    · exact hi.o
+  unfold opUnreg
+  simp only [hl, hall, hpall, not_true_eq_false, if_false, checkInv_of _ hO, Bool.not_true, Bool.false_eq_true]
+
+theorem pullFailed_spec (c : Cfg) (sc p : Nat) (k : List Frame) (h : Inv { c with stack := k })
+    (hl : c.o.scp.lookup sc = some p) :
+    pullFailed c sc k = unregDrop (unregPop { c with stack := k } sc p) p := by
+  unfold pullFailed
+  rw [opUnreg_ok { c with stack := k } sc p h hl]
+  unfold quiet unregDrop
+  rfl
 
 end WV.Proofs.C15
